@@ -220,7 +220,7 @@ func main() {
 			}
 		}
 		// injected faults and body shapes on a representative template
-		for _, fault := range []string{"serializer", "transport", "body-read", "deserializer", "deserializer-nil", "unserialisable-body", "nil-body"} {
+		for _, fault := range []string{"serializer", "transport", "body-read", "deserializer", "deserializer-nil", "deserializer-foreign-value", "deserializer-typed-nil", "unserialisable-body", "nil-body"} {
 			for _, hdr := range headers {
 				inputs++
 				oneCase(ct, base, "{x}/b/{y}", network.PathParam{"x": 1, "y": "v"}, hdr, fault, &samples)
@@ -504,6 +504,14 @@ func oneCase(ct ctor, base, tmpl string, pp network.PathParam, hdr http.Header, 
 		wantErr = desErr.Error()
 	case "deserializer-nil":
 		api.ResponseDeserializer = func(b []byte, t interface{}) (interface{}, error) { return nil, desErr }
+		wantErr = desErr.Error()
+	case "deserializer-foreign-value": // a lenient decoder that hands back what it could make of the body, plus the error
+		api.ResponseDeserializer = func(b []byte, t interface{}) (interface{}, error) {
+			return map[string]interface{}{"raw": string(b)}, desErr
+		}
+		wantErr = desErr.Error()
+	case "deserializer-typed-nil":
+		api.ResponseDeserializer = func(b []byte, t interface{}) (interface{}, error) { return (*reply)(nil), desErr }
 		wantErr = desErr.Error()
 	case "unserialisable-body":
 		if ct.kind == "json" {
